@@ -455,6 +455,8 @@ type Clause struct {
 	Site  string // for call-site clauses: callee#k
 	Line  int
 	File  string
+	IfInScope bool // site clause that is skipped where a local variable it mentions is not in scope
+	Applied   int
 }
 
 type SpecFunc struct {
@@ -679,7 +681,7 @@ func (sf *SpecFile) load(path string) error {
 				sf.Contracts[name] = cur
 				sf.Order = append(sf.Order, name)
 			}
-		case "requires", "ensures", "exit", "invariant", "loop", "assert", "assume", "after", "before":
+		case "requires", "ensures", "exit", "invariant", "loop", "assert", "assert?", "assume", "after", "before":
 			if cur == nil {
 				return fail(fmt.Errorf("clause outside func"))
 			}
@@ -721,6 +723,13 @@ func (sf *SpecFile) load(path string) error {
 				cl.Expr = e
 				cur.Ghost = append(cur.Ghost, cl)
 				continue
+			}
+			if word == "assert?" {
+				// like assert, but only at the call sites where every local it mentions is in scope
+				// (it must apply to at least one site)
+				cl.Kind = "assert"
+				cl.IfInScope = true
+				word = "assert"
 			}
 			if word == "assume" || word == "assert" {
 				// assume|assert [props] label: expr @ callee#k   (checked/assumed just before the k-th call of callee)
